@@ -279,6 +279,63 @@ fn strings_upto(alpha: &[&str], n: usize) -> Vec<String> {
     out
 }
 
+/// Two threads: while thread A is inside a listener callback (a write is being dispatched), thread B drops the handle
+/// of ANOTHER subscription. Whatever B's drop does while the registry is busy (wait for it, or defer), once both
+/// threads are done the dropped subscription must never be called again.
+fn concurrent_drop_scenario(round: u64, out: &mut LOut) {
+    use std::sync::atomic::{AtomicUsize, Ordering};
+    use std::sync::mpsc;
+    let mut node = mk_node(simple_id("n", 9400), &NodeOpts::default());
+    let (entered_tx, entered_rx) = mpsc::channel::<()>();
+    let (release_tx, release_rx) = mpsc::channel::<()>();
+    let release_rx = std::sync::Mutex::new(release_rx);
+    let entered_tx = std::sync::Mutex::new(entered_tx);
+    let slow_calls = Arc::new(AtomicUsize::new(0));
+    let sc = slow_calls.clone();
+    let slow = node.cc.subscribe_event("slow:", move |_ev: KeyChangeEvent| {
+        // only the first call parks (later writes of this scenario must not block)
+        if sc.fetch_add(1, Ordering::SeqCst) == 0 {
+            let _ = entered_tx.lock().unwrap().send(());
+            let _ = release_rx.lock().unwrap().recv_timeout(std::time::Duration::from_secs(20));
+        }
+    });
+    let fast_calls = Arc::new(AtomicUsize::new(0));
+    let fc = fast_calls.clone();
+    let fast = node.cc.subscribe_event(if round % 2 == 0 { "fast:" } else { "" }, move |_ev: KeyChangeEvent| {
+        fc.fetch_add(1, Ordering::SeqCst);
+    });
+    let (about_tx, about_rx) = mpsc::channel::<()>();
+    std::thread::scope(|sc| {
+        let cc = &mut node.cc;
+        sc.spawn(move || {
+            cc.self_node_state().set("slow:key", "v");
+        });
+        // A is parked inside the callback
+        if entered_rx.recv_timeout(std::time::Duration::from_secs(20)).is_err() {
+            out.c.inc("concurrent_drop_scenarios_inconclusive");
+            let _ = release_tx.send(());
+            return;
+        }
+        sc.spawn(move || {
+            let _ = about_tx.send(());
+            drop(fast);
+        });
+        let _ = about_rx.recv_timeout(std::time::Duration::from_secs(20));
+        std::thread::sleep(std::time::Duration::from_millis(20));
+        let _ = release_tx.send(());
+    });
+    // the "" subscription saw the parked write itself (it was still subscribed then): count from here
+    let base = fast_calls.load(Ordering::SeqCst);
+    node.cc.self_node_state().set("fast:key", "v2");
+    node.cc.self_node_state().set("fast:other", "v3");
+    let after = fast_calls.load(Ordering::SeqCst);
+    out.c.inc("concurrent_drop_scenarios");
+    if after != base {
+        out.findings.push(Finding::new(&["C15"], "listener.dropped_handle_called", format!("concurrent drop round {round}: a handle dropped (by another thread) while a write was being dispatched was called {} more time(s) by later writes", after - base)));
+    }
+    drop(slow);
+}
+
 pub fn check(args: &Args) -> Outcome {
     let mut ev = Evidence::new(args, "exploration");
     let deadline = Deadline::new(args.tier.pick(200, 3000));
@@ -313,6 +370,22 @@ pub fn check(args: &Args) -> Outcome {
     });
     let complete = res.len() as u64 == ns;
     let mut violations: Vec<(Finding, Value)> = vec![];
+    // a handle dropped by another thread while a dispatch is in progress
+    {
+        let rt = paused_rt();
+        let _g = rt.enter();
+        let mut out = LOut { findings: vec![], c: Counters::default() };
+        for r in 0..if miri { 1 } else { args.tier.pick(6u64, 40u64) } {
+            concurrent_drop_scenario(r, &mut out);
+        }
+        ev.counters.merge(&out.c);
+        if out.c.get("concurrent_drop_scenarios_inconclusive") > 0 {
+            ev.inconclusive.push("concurrent-drop scenario: the dispatching thread never entered the callback".into());
+        }
+        for f in out.findings {
+            violations.push((f, json!({"engine": "E7", "part": "concurrent-drop"})));
+        }
+    }
     for (i, out) in res {
         ev.counters.merge(&out.c);
         ev.evaluations += out.c.get("prefix_key_pairs");
